@@ -747,6 +747,36 @@ func checkScript(src []byte) (nBase int, runs int, v violations) {
 		}
 	}
 
+	// a source bound to ANOTHER context (a request body with its own deadline): it fails with that context's error while the
+	// context handed to Parse is still live.  The input was not finished, so the error must not be nil, whatever its value is
+	for bi, b := range sampleBs(src, g) {
+		if b >= len(src) || bi%5 != 0 {
+			continue
+		}
+		other, ocancel := context.WithCancel(context.Background())
+		if bi%2 == 1 {
+			ocancel()
+			other, ocancel = context.WithDeadline(context.Background(), time.Now().Add(-time.Minute))
+		}
+		rd := newByteReader(src, b, ocancel)
+		rd.ctx = other
+		rd.withData = bi%3 == 1
+		live, lcancel := context.WithCancel(context.Background())
+		r := parseOnce(live, rd)
+		lcancel()
+		ocancel()
+		what := fmt.Sprintf("reader bound to another context failing at byte %d with %v (withData=%v), Parse's context live", b, other.Err(), rd.withData)
+		switch {
+		case r.class == "panic":
+			v.add("%s: panic %s", what, r.panicked)
+		case !rd.fired:
+		case r.err == nil:
+			v.add("%s: nil error with %d statements although the input was not finished", what, r.n)
+		}
+		// (no prefix requirement here: Parse's own context is live, so the parser goes on over what was delivered, and a stream
+		// cut inside a comment or string is another input)
+	}
+
 	// pre-cancelled and expired-deadline contexts
 	{
 		ctx, cancel := context.WithCancel(context.Background())
